@@ -139,7 +139,9 @@ func runC08(r *Run, rng *Rng, thorough bool) {
 			if gderr != nil && gc != nil {
 				fail("nothing-on-failure", "DecodeAndValidateClaimsFromCBOR failed but returned claims")
 			}
-			if gderr == nil && gettersOnly(observe(gc)) != gettersOnly(observe(sc)) {
+			if gderr == nil && gc == nil {
+				fail("like-sibling", "a decode-and-validate variant reports success and returns no claims")
+			} else if gderr == nil && gettersOnly(observe(gc)) != gettersOnly(observe(sc)) {
 				fail("like-sibling", "DecodeAndValidateClaimsFromCBOR result differs from DecodeClaimsFromCBOR")
 			}
 		}
@@ -154,7 +156,9 @@ func runC08(r *Run, rng *Rng, thorough bool) {
 			if gderr != nil && gc != nil {
 				fail("nothing-on-failure", "DecodeAndValidateClaimsFromJSON failed but returned claims")
 			}
-			if gderr == nil && gettersOnly(observe(gc)) != gettersOnly(observe(sc)) {
+			if gderr == nil && gc == nil {
+				fail("like-sibling", "a decode-and-validate variant reports success and returns no claims")
+			} else if gderr == nil && gettersOnly(observe(gc)) != gettersOnly(observe(sc)) {
 				fail("like-sibling", "DecodeAndValidateClaimsFromJSON result differs from DecodeClaimsFromJSON")
 			}
 			deprecatedAliases(r, "own JSON", sj)
@@ -170,7 +174,9 @@ func runC08(r *Run, rng *Rng, thorough bool) {
 			if gderr != nil && ge != nil {
 				fail("nothing-on-failure", "DecodeAndValidateEvidenceFromCOSE failed but returned evidence")
 			}
-			if gderr == nil && gettersOnly(observe(ge.Claims)) != gettersOnly(observe(se.Claims)) {
+			if gderr == nil && (ge == nil || ge.Claims == nil) {
+				fail("like-sibling", "DecodeAndValidateEvidenceFromCOSE reports success and returns no evidence")
+			} else if gderr == nil && gettersOnly(observe(ge.Claims)) != gettersOnly(observe(se.Claims)) {
 				fail("like-sibling", "DecodeAndValidateEvidenceFromCOSE result differs from DecodeEvidenceFromCOSE")
 			}
 		}
